@@ -241,8 +241,8 @@ CFG = {
     "prop_file": "Properties/C11.v",
     "run_modules": ["Verif.C11.Run"],
     "coq_dirs": ["C11"],
-    "n": {"quick": 330, "thorough": 50000},
-    "shard": 250,
+    "n": {"quick": 300, "thorough": 50000},
+    "shard": 150,
     "max_report": 8,
     "level": "proof",
     "rule": ("(a) lattice, enumerated exhaustively: for each of the 13 traps, post-trap target states {key absent | data "
